@@ -8,6 +8,9 @@
 //! name of the highest-priority switch in that set. If the model with *no* switch does not agree
 //! with the oracle for the input (so the model is not applicable), or if no set reproduces the
 //! observed answer, the case keeps the generic signature and is a VIOLATION.
+//!
+//! The `src/tzdb.rs:<line>` references in the switch comments are positions in the pinned commit (before the
+//! `fix:` commits); several of the switches describe defects that have since been repaired and can no longer fire.
 
 use super::tzif::{DayRule, Oracle, PosixTz, Rule};
 use super::Ans;
